@@ -13,7 +13,7 @@ MAX_STEPS = 120
 def child_main(job, ask):
     mode = job["mode"]
     ex = Executor(oracle=ask, alias_guidance=job.get("alias_guidance", True),
-                  count_lines=job.get("count_lines", False))
+                  count_lines=job.get("count_lines", False), record_args=job.get("record_args", False))
     steps = []
     cfg = None
     if mode == "generate":
